@@ -45,6 +45,11 @@ CHECKS = {
          "Every payload length, GSO segment size x count x last-segment shape, ECN codepoint, explicit source address, receive-buffer shape and GRO on/off, on four socket-pair families, is sent through quinn-udp and fully received before the next; the oracle is the Transmit itself (segments byte-identical, in order, stride splits batches, ecn/addr/dst_ip conveyed). Offload-failure fallback is triggered from user space and the following plain transmits are checked.",
          "Kernel behaviour is not owned: a silent receive is retried and then recorded as inconclusive, only a received-but-wrong result is a violation; memory safety of the unsafe cmsg code as such is outside this family.",
          "DESIGN.md#c19"),
+ "C09": ("E2", "fault_enumeration",
+         "deviation-bounded stateless exploration of one real server endpoint with several concurrent client connections and a per-Endpoint::handle routing oracle",
+         "Three (later four) client connections from two or three client endpoints run different-length transfers against one server endpoint; every execution with <=2 fate deviations in the scenario window is enumerated for CID lengths 0/1/4/8/20, CID rotation every 200 ms, local_address_changed at several points, connections closed at each listed step with a new connection reusing the freed handle, and stale datagrams delayed past handle reuse. For every Endpoint::handle call the connection the datagram is handed to (identified by a never-reused serial) must be the peer of the connection that produced it; connections nobody closed must complete and the server side must obtain exactly that connection's bytes. One-byte CIDs: exhaustion is reported as CidsExhausted, and 80 short connections beside a long-lived pinging one (CID space wraps) cause no misrouting.",
+         "Counter-based CID generator supplied through the API (the built-in generators draw from the OS RNG); zero-length CIDs use one connection per client endpoint.",
+         "DESIGN.md#c09"),
  "C10": ("E3", "exploration",
          "complete enumeration of finite codec domains against independent reference codecs",
          "Every value of the 1/2-byte (quick) and 4-byte (thorough) varint ranges and windows around each power of two above; packet numbers in windows of up to 2^17 around every encoding-size boundary x receiver expectations (RFC 9000 A.3 reference); every header form x CID lengths 0..=20 x token lengths x packet-number sizes x versions incl. coalesced pairs/triples; every frame type over the product of boundary values per field (real encoder, independent decoder, real decoder); transport parameters one-at-a-time and full product; connection IDs, tokens, hashed CID generator; totality: all byte strings up to 2/3 bytes and every single-byte mutation and truncation of the valid corpus into every decoder must return Ok/Err, never panic.",
